@@ -34,6 +34,7 @@ struct SexprOpts
 {
     bool sym_types = true;   // print the declared type of the symbol an identifier is bound to
     bool expr_types = false;  // print the kind of every node's type (after type checking)
+    bool type_expr_syms = false;  // identifiers inside type expressions (bounds, sizes) carry their symbol's type too (depth limited)
     bool dot_members = true;  // decorate DOT nodes with the selected member's name and type
     // reference substitution (C19): identifiers bound to *subst_sym are rendered as *subst_text
     const UTAP::symbol_t* subst_sym = nullptr;
